@@ -261,6 +261,8 @@ class AsyncQueueFamily(common.Family):
     pool = futures.ThreadPoolExecutor(
         max_workers=C + 2 + cfg['extra_workers'], thread_name_prefix='aqpool')
     q = iter_utils.AsyncIteratorQueue(cfg['cap'], name='aq', thread_pool=pool)
+    sim.on_failure.append(lambda: sim.scratch.update(pool_state=(
+        pool._work_queue.qsize(), len(pool._threads), pool._max_workers)))  # pylint: disable=protected-access
     loop = asyncio.new_event_loop()
     lt = threading.Thread(target=loop.run_forever, name='loop')
     lt.start()
@@ -366,6 +368,17 @@ class AsyncQueueFamily(common.Family):
     res = QueueFamily.check(self, cfg, out)
     for r in res:
       r['sig'] = r['sig'] + ':async'
+    f = out.get('failure')
+    state = out.get('scratch', {}).get('pool_state')
+    if f is not None and f.kind == 'deadlock' and state is not None and res:
+      queued, n_threads, max_workers = state
+      if queued and n_threads < max_workers:
+        # Not a queue defect: a submitted put/get never got a pool thread
+        # although the pool was allowed more (CPython's idle-thread accounting
+        # over-counted), and the tasks that occupy the threads wait for it.
+        res = [v('termination', 'pool-task-never-started:async',
+                 f'{queued} executor task(s) still queued with {n_threads} of '
+                 f'{max_workers} pool threads started; ' + res[0]['msg'])]
     return res
 
   def shrink(self, cfg):
